@@ -20,6 +20,54 @@ TEXT = {
         note=COMMON_NOTE,
         technique="TLA+ trace validation with TLC (impl -> spec) + TLC-generated behaviours replayed on the crate (spec -> impl)",
         ref="DESIGN.md section 7 C01"),
+    "C02": dict(
+        level="MC_Cmp (TLC, exhaustive: all pairs of decimals with |unscaled| <= 25/60 at scales -2..2, all triples of a "
+              "smaller pool) shows three independent definitions of the order agree (aligned digits, adjusted-exponent-first "
+              "on ZInt scales, sign of the exact difference), that == is cmp = 0, antisymmetry, transitivity, totality. Every "
+              "small pair is printed by TLC and replayed through all 18 comparison spellings (==, !=, <, <=, >, >=, cmp, "
+              "partial_cmp on BigDecimal, &BigDecimal, BigDecimalRef) plus max/min; the driver adds value-equal pairs with scale "
+              "gaps 1..19 / >= 20, one-ulp neighbours, operands whose 32-bit words sit at floor(2^64/10^k)+-1 (k = 1..19, word "
+              "positions 0..3), pairs differing in one 32-bit word or by a dropped top word, u32/u64/u128 fast-path limits, scale "
+              "differences around and beyond 2^63, up to 600/3000 digits, sort/max/min; all recorded with a checked "
+              "(overflow-checks, debug-assertions) and a release build, and every event is validated by TLC. A panic or a "
+              "profile-dependent answer is an unexplained event.",
+        note=COMMON_NOTE,
+        technique="TLC model checking of the order (MC_Cmp) + TLC-generated pairs replayed on the crate + TLA+ trace validation, two build profiles",
+        ref="DESIGN.md section 7 C02"),
+    "C03": dict(
+        level="MC_Cmp checks at design level that the hash mechanism anchored in the code (decimal string, trim up to `scale` "
+              "trailing zeros, append `-scale` zeros, zero = \"0\") maps equal values to equal strings for all small pairs. Trace "
+              "validation is stateful: the specification remembers, per normal form, the digest (FNV-1a-128 of the byte stream fed "
+              "to a recording Hasher, its length, and DefaultHasher's output) of the first representation seen, and every later "
+              "representation of the same value must reproduce it; HashSet cardinality = number of distinct values. Groups of "
+              "equal values with 0..120/300 extra trailing zeros, negative scale vs written-out zeros, zero runs longer than the "
+              "scale, zeros with any scale, |scale| up to 2*10^4 / 10^5.",
+        note=COMMON_NOTE + " FNV-1a-128 collision-freeness on the recorded byte streams.",
+        technique="TLC model checking of the hash-key mechanism + stateful TLA+ trace validation (history variable: value -> digest)",
+        ref="DESIGN.md section 7 C03"),
+    "C06": dict(
+        level="MC_Round (TLC, exhaustive: |unscaled| <= 1200 quick / 9999 thorough x scales -3..8 x all targets within 4 of either "
+              "end x 7 modes, 2.5 M / 24 M states) shows the mechanism-level RoundToScale (digit pair at the rounding point, tail "
+              "flag, carry) satisfies the declarative IsRoundedTo (neighbouring multiple chosen by the mode, ties on the whole "
+              "tail), that the declaration is functional, truncation = Down, directed-mode and symmetry laws, and the 4200-argument "
+              "digit-pair table. TLC prints every small decimal; the harness runs with_scale_round (all targets x 7 modes), "
+              "with_scale, to_owned_with_scale and round on each (|unscaled| <= 300 / 2000: 0.78 M / 5.6 M calls) and TLC validates "
+              "every call; the driver adds decimals to 700/3000 digits with ties, near ties, all-nines carries, targets left of the "
+              "leading digit, zeros, both signs, all 4200 round_pair arguments and round_u32.",
+        note=COMMON_NOTE,
+        technique="TLC model checking (mechanism vs declaration) + TLC-generated exhaustive small scope replayed on the crate + TLA+ trace validation",
+        ref="DESIGN.md section 7 C06"),
+    "C07": dict(
+        level="Same MC_Round model (precision rounding = scale rounding at scale + p - digits; an added digit only on an all-nines "
+              "carry). TLC-printed small decimals are run through with_precision_round (p = 1..digits+5 x 7 modes), with_prec and "
+              "the Context entry points (round_decimal, round_decimal_ref on &BigDecimal / BigDecimalRef / &BigInt, "
+              "round_with_context, add_refs, add_refs_into); the driver adds 700/3000-digit inputs with ties at the p-th digit, "
+              "p = digits-1, digits, digits+1, sums needing more than p digits, negatives through with_prec, and precisions / "
+              "scales at the i64 guards (ZInt arithmetic in the specification: the documented panic is the only alternative to "
+              "the right answer).",
+        note=COMMON_NOTE,
+        technique="TLC model checking + TLC-generated exhaustive small scope replayed on the crate + TLA+ trace validation",
+        ref="DESIGN.md section 7 C07"),
     "C18": dict(
         level="TLC validates traces of constructors, accessors, digits()/count_digits(), normalized(), with_scale / "
               "to_owned_with_scale / with_prec extension against the representation-level operators of the TLA+ "
